@@ -84,6 +84,17 @@ func buildRequest(c Case, r Req, full bool) (*http.Request, middleware.RoutePara
 			target += "/" + url.PathEscape(string(s.Vals[0]))
 		}
 	}
+	// cross-location decoys: the same name in the other location must not be looked at
+	for i, d := range c.Decls {
+		for _, v := range r.Sent[i].Cross {
+			switch {
+			case d.In == "formData" && d.Type != "file":
+				q.Add(d.Name, string(v))
+			case d.In == "query" && hasForm:
+				form.Add(d.Name, string(v))
+			}
+		}
+	}
 	if len(q) > 0 {
 		target += "?" + q.Encode()
 	}
@@ -108,6 +119,16 @@ func buildRequest(c Case, r Req, full bool) (*http.Request, middleware.RoutePara
 				}
 				for _, v := range r.Sent[i].Decoy {
 					if err := mw.WriteField(decoyName(d.Name), string(v)); err != nil {
+						return nil, nil, err
+					}
+				}
+			}
+			for i, d := range c.Decls {
+				if d.In != "query" {
+					continue
+				}
+				for _, v := range r.Sent[i].Cross {
+					if err := mw.WriteField(d.Name, string(v)); err != nil {
 						return nil, nil, err
 					}
 				}
